@@ -390,3 +390,62 @@ func Convertible(ctx context.Context, o types.Object, schemaType attr.Type) (ok 
 	}
 	return true, ""
 }
+
+// NilEmptyElems returns v with the Elems of every known, non-null, EMPTY list / map that tv marks "elemsnil" set to nil:
+// the form in which provider code (defaults, plan modifiers) writes an empty collection into a plan.  The framework's own
+// decoder always allocates Elems; both forms denote the same Terraform value.
+func NilEmptyElems(v attr.Value, tv J) attr.Value {
+	if tv == nil {
+		return v
+	}
+	switch x := v.(type) {
+	case types.Object:
+		if x.Null || x.Unknown || x.Attrs == nil {
+			return x
+		}
+		attrs, _ := tv["attrs"].(J)
+		for k, a := range x.Attrs {
+			if sub, ok := attrs[k].(J); ok {
+				x.Attrs[k] = NilEmptyElems(a, sub)
+			}
+		}
+		return x
+	case types.List:
+		if x.Null || x.Unknown {
+			return x
+		}
+		if len(x.Elems) == 0 {
+			if jb(tv, "elemsnil") {
+				x.Elems = nil
+			}
+			return x
+		}
+		elems, _ := tv["elems"].([]interface{})
+		for i := range x.Elems {
+			if i < len(elems) {
+				if sub, ok := elems[i].(J); ok {
+					x.Elems[i] = NilEmptyElems(x.Elems[i], sub)
+				}
+			}
+		}
+		return x
+	case types.Map:
+		if x.Null || x.Unknown {
+			return x
+		}
+		if len(x.Elems) == 0 {
+			if jb(tv, "elemsnil") {
+				x.Elems = nil
+			}
+			return x
+		}
+		mels, _ := tv["mels"].(J)
+		for k := range x.Elems {
+			if sub, ok := mels[k].(J); ok {
+				x.Elems[k] = NilEmptyElems(x.Elems[k], sub)
+			}
+		}
+		return x
+	}
+	return v
+}
